@@ -84,6 +84,9 @@ class Specialiser:
         self.dispatcher = dispatcher
         self.done = []
         self.notes = []
+        # locals that are only keyword-argument bundles: splatted as `**name` into a call other than the object constructor
+        self.kwdict_names = {k.value.id for c in ast.walk(fn) if isinstance(c, ast.Call) and not (isinstance(c.func, ast.Name) and c.func.id == "tpm_type")
+                             for k in c.keywords if k.arg is None and isinstance(k.value, ast.Name)}
 
     # ------------------------------------------------------------------ driver
     def run(self):
@@ -175,6 +178,15 @@ class Specialiser:
             self.yield_(val, s, st)
             if isinstance(tgt, ast.Name):
                 s.env[tgt.id] = ("sym", "sent")
+            return [s]
+        if isinstance(tgt, ast.Name) and tgt.id in self.kwdict_names and isinstance(val, ast.Dict) \
+                and all(k is not None and isinstance(k, ast.Constant) and isinstance(k.value, str) for k in val.keys):
+            s.env[tgt.id] = ("kwdict", tuple((k.value, self.ev(v_, s), v_) for k, v_ in zip(val.keys, val.values)))
+            return [s]
+        if isinstance(tgt, ast.Subscript) and isinstance(tgt.value, ast.Name) and s.env.get(tgt.value.id, ("?",))[0] == "kwdict" \
+                and isinstance(tgt.slice, ast.Constant) and isinstance(tgt.slice.value, str):
+            old = [x for x in s.env[tgt.value.id][1] if x[0] != tgt.slice.value]
+            s.env[tgt.value.id] = ("kwdict", tuple(old + [(tgt.slice.value, self.ev(val, s), val)]))
             return [s]
         v = self.ev(val, s)
         if isinstance(tgt, ast.Name):
@@ -279,12 +291,22 @@ class Specialiser:
             raise AnalysisError(f"specialiser: `yield from {norm(c)[:50]}` is not a call")
         name = call_name(c)
         kws = {k.arg: self.ev(k.value, s) for k in c.keywords if k.arg}
+        kw_nodes = {k.arg: k.value for k in c.keywords if k.arg}
+        for k in c.keywords:
+            if k.arg is None:
+                d = self.ev(k.value, s)
+                if d[0] == "kwdict":
+                    for key, absval, node in d[1]:
+                        kws[key] = absval
+                        kw_nodes[key] = node
+                elif d[0] != "emptydict":
+                    raise AnalysisError(f"specialiser: `**{norm(k.value)}` in `{norm(c)[:60]}` is not a tracked keyword bundle")
         if name == self.dispatcher:
             args = [self.ev(a, s) for a in c.args]
             idx = sum(1 for e in s.trace if e.kind == "process")
             fld = s.field[0] if s.field else None
             ev = Ev("process", c, index=idx, field=fld, type=args[0] if args else None, path=args[1] if len(args) > 1 else kws.get("path"),
-                    kwargs=kws, kw_nodes={k.arg: k.value for k in c.keywords if k.arg})
+                    kwargs=kws, kw_nodes=kw_nodes)
             s.trace.append(ev)
             return (fld, idx)
         if isinstance(c.func, ast.Attribute):
@@ -404,6 +426,9 @@ class Specialiser:
                     return r if isinstance(op, ast.In) else not r
                 if b[0] == "emptydict":
                     return isinstance(op, ast.NotIn)
+                if b[0] == "kwdict" and a[0] == "const":
+                    r = any(x[0] == a[1] for x in b[1])
+                    return r if isinstance(op, ast.In) else not r
                 return None
             if isinstance(op, (ast.Is, ast.IsNot)):
                 if a[0] == "type" and b[0] == "type":
